@@ -986,5 +986,265 @@ theorem issueLoop_trace (p : Proc N) (old : Util N) (e : Nat) (ports : List (Uni
 
 end trace
 
+/-! ## 7. Frozen records are exactly the fixed points of the cycle -/
+
+section frozen
+
+/-- Semantic form of `Spec.frozen` for a record `old` with `e` instructions issued. The clause about data-stalled
+instructions is the parameter `dOK`. -/
+structure FrozenRec (p : Proc N) (prog : List (Instr N)) (old : Util N) (e : Nat) (dOK : UnitM N → HI → Prop) :
+    Prop where
+  /-- nobody is unstalled (an unstalled instruction becomes `S` or leaves) -/
+  noU : ∀ u ∈ p.allUnits, ∀ h ∈ old.get u.name, h.st ≠ .U
+  /-- a structurally stalled instruction is not at the output boundary and every successor supporting it is full -/
+  sBlocked : ∀ u ∈ p.allUnits, ∀ h ∈ old.get u.name, h.st = .S →
+    u.name ∉ p.outBoundary ∧
+    ∀ v ∈ succsOf p u.name, supports prog h.idx v = true → v.width ≤ (old.get v.name).length
+  dBlocked : ∀ u ∈ p.allUnits, ∀ h ∈ old.get u.name, h.st = .D → dOK u h
+  /-- the next instruction does not exist or every input port supporting it is full -/
+  noIssue : prog.length ≤ e ∨ ∀ u ∈ p.inBoundary, supports prog e u = true → u.width ≤ (old.get u.name).length
+
+omit [LT N] [DecidableRel (α := N) (· < ·)] in
+theorem mem_succsOf_iff {p : Proc N} {n : N} {v : UnitM N} :
+    v ∈ succsOf p n ↔ ∃ d ∈ p.dests, n ∈ d.preds ∧ d.model = v := by
+  simp only [succsOf, List.mem_map, List.mem_filter, decide_eq_true_eq]
+  constructor
+  · rintro ⟨d, ⟨hd, hp⟩, rfl⟩; exact ⟨d, hd, hp, rfl⟩
+  · rintro ⟨d, hd, hp, rfl⟩; exact ⟨d, ⟨hd, hp⟩, rfl⟩
+
+theorem fillCycle_unfold (p : Proc N) (prog : List (Instr N)) (old : Util N) (e : Nat) :
+    fillCycle p prog old e =
+      issueLoop (sortedInputs p) (prog.drop e)
+        (fillDests prog p.dests (flushOutputs p.outBoundary old) false).1
+        (fillDests prog p.dests (flushOutputs p.outBoundary old) false).2 e := rfl
+
+/-- **stall ⇒ frozen.** If the cycle run from `s` reproduces the last record (stall error), that record is frozen:
+nobody is unstalled, every `S` is blocked by full successors, every `D` is refused again by the register queues
+(`labelOf … = D`), and the next instruction fits no input port. Memory can not be the reason for any refusal since
+nothing entered anywhere in that cycle. -/
+theorem fixed_frozen {p : Proc N} {prog : List (Instr N)} (hwf : wfProc p = true) {s : SimState N}
+    (h : TermInv p prog s) (hr : runCycle p prog s = .ok none) :
+    FrozenRec p prog s.util s.entered (fun u x => labelOf prog s.queues u (s.util.get u.name) x.idx = .D) := by
+  obtain ⟨lab, qs, hlab, _, hb⟩ := runCycle_eq_none hr
+  have C := cycleCtx_of_labelAll hwf h hlab
+  have hperm := (Util_beq_iff_multiset C.rowNew.keys_nodup C.rowOld.keys_nodup).1 hb
+  have hord := wfProc_orderOK hwf
+  have hn := wfProc_nodup_names hwf
+  have notBad : ¬ Bad p s.util s.entered (fillCycle p prog s.util s.entered).1 := by
+    rintro ⟨n, x, hx, hns⟩
+    have hi : x.idx ∈ (lab.1.get n).map (·.idx) := by
+      rw [labelAll_get_idx hlab n]; exact List.mem_map.2 ⟨x, hx, rfl⟩
+    obtain ⟨x', hx', hxi⟩ := List.mem_map.1 hi
+    have hold : x' ∈ s.util.get n := (hperm n).mem_iff.1 hx'
+    rcases hns with ⟨_, m, y, hy, hyi, _, hlt⟩ | ⟨_, hge⟩
+    · have : m = n := h.nd.unique_host m n x.idx (List.mem_map.2 ⟨y, hy, hyi⟩) (List.mem_map.2 ⟨x', hold, hxi⟩)
+      subst this; omega
+    · have := h.row.idx_lt n x' hold; omega
+  have hF0 : ∀ n x, x ∈ (flushOutputs p.outBoundary s.util).get n → Origin p s.util s.entered n x :=
+    fun n x hx => Or.inl ((flushOutputs_get_sublist _ _ n).subset hx)
+  obtain ⟨_, _, t3⟩ := fillDests_trace hord prog s.util s.entered p.dests (fun _ hd => hd) _ false hF0
+  obtain ⟨_, i2⟩ := issueLoop_trace p s.util s.entered (sortedInputs p) (prog.drop s.entered)
+    (fillDests prog p.dests (flushOutputs p.outBoundary s.util) false).1
+    (fillDests prog p.dests (flushOutputs p.outBoundary s.util) false).2 s.entered (Nat.le_refl _)
+  rw [← fillCycle_unfold] at i2
+  obtain ⟨hiss, htry⟩ := i2.resolve_right notBad
+  have e1 : (fillCycle p prog s.util s.entered).1 =
+      (fillDests prog p.dests (flushOutputs p.outBoundary s.util) false).1 := congrArg Prod.fst hiss
+  obtain ⟨g1, g2, g3⟩ := t3.resolve_left (by rw [← e1]; exact notBad)
+  have hmidget : ∀ n, (fillCycle p prog s.util s.entered).1.get n = (flushOutputs p.outBoundary s.util).get n := by
+    intro n; rw [e1]; exact g1 n
+  have hflush : ∀ n, (flushOutputs p.outBoundary s.util).get n = s.util.get n := by
+    intro n
+    have l1 := labelAll_get_length hlab n
+    have l2 := (hperm n).length_eq
+    rw [hmidget n] at l1
+    rw [flushOutputs_get] at l1 ⊢
+    split
+    · next hin =>
+      rw [if_pos hin] at l1
+      exact List.filter_eq_self.2 (List.length_filter_eq_length_iff.1 (by omega))
+    · rfl
+  refine ⟨?_, ?_, ?_, ?_⟩
+  · intro u hu x hx hst
+    have hx' : x ∈ lab.1.get u.name := (hperm u.name).mem_iff.2 hx
+    rcases C.cases u.name x hx' with ⟨y, hy, hyi, _, hND⟩ | ⟨m, y, hy, hyi, _, hlt⟩ | hge
+    · have := eq_of_idx_eq (h.nd.nodup_unit u.name) hy hx hyi
+      subst this
+      have := hND (by rw [hst]; decide)
+      rw [hst] at this; cases this
+    · have : m = u.name :=
+        h.nd.unique_host m u.name x.idx (List.mem_map.2 ⟨y, hy, hyi⟩) (List.mem_map.2 ⟨x, hx, rfl⟩)
+      subst this; omega
+    · have := h.row.idx_lt u.name x hx; omega
+  · intro u hu x hx hst
+    constructor
+    · intro hout
+      have := hflush u.name
+      rw [flushOutputs_get, if_pos hout] at this
+      have := List.filter_eq_self.1 this x hx
+      simp [hst] at this
+    · intro v hv hsup
+      obtain ⟨d, hd, hpred, rfl⟩ := mem_succsOf_iff.1 hv
+      have ht := g3 d hd
+      unfold unitTaken at ht
+      have hcand : (u.name, x.idx) ∈ candidates prog d (flushOutputs p.outBoundary s.util) := by
+        refine mem_candidates.2 ⟨hpred, x, by rw [hflush]; exact hx, ?_, rfl⟩
+        unfold supports at hsup
+        simp [validCand, hst, hsup]
+      rcases fillTaken_stop prog d.model (candidates prog d (flushOutputs p.outBoundary s.util))
+        ((flushOutputs p.outBoundary s.util).get d.model.name).length false with hs | hs
+      · rw [ht, hflush] at hs
+        simp only [List.length_nil, Nat.add_zero] at hs
+        omega
+      · rcases hs _ hcand with h1 | ⟨_, h2⟩
+        · rw [ht] at h1; cases h1
+        · rw [ht] at h2; simp at h2
+  · intro u hu x hx hst
+    have hne : (fillCycle p prog s.util s.entered).1.get u.name ≠ [] := by
+      rw [hmidget, hflush]; exact List.ne_nil_of_mem hx
+    obtain ⟨unit, hlu, hnew⟩ := (labelAll_get hlab u.name).2 hne
+    have hu' : unit = u := by
+      have := lookupUnit_of_mem hn hu
+      rw [this] at hlu; exact (Option.some.inj hlu).symm
+    subst hu'
+    rw [hmidget, hflush] at hnew
+    have hx' : (⟨x.idx, labelOf prog s.queues unit (s.util.get unit.name) x.idx⟩ : HI) ∈ lab.1.get unit.name := by
+      rw [hnew]; exact List.mem_map.2 ⟨x, hx, rfl⟩
+    have hold := (hperm unit.name).mem_iff.1 hx'
+    have := congrArg HI.st (eq_of_idx_eq (h.nd.nodup_unit unit.name) hold hx rfl)
+    simp only at this
+    rw [this, hst]
+  · by_cases hlt : prog.length ≤ s.entered
+    · exact Or.inl hlt
+    · right
+      intro q hq hsup
+      have hlt' : s.entered < prog.length := by omega
+      have ht := htry _ _ (List.drop_eq_getElem_cons hlt')
+      have hnu := tryPorts_eq_none_iff.1 ht q (mem_sortedInputs.2 hq)
+      have hcap : prog[s.entered].cap ∈ q.caps := by
+        simpa [supports, capIn, List.getElem?_eq_getElem hlt'] using hsup
+      by_cases hw : ((fillDests prog p.dests (flushOutputs p.outBoundary s.util) false).1.get q.name).length = q.width
+      · rw [g1, hflush] at hw; omega
+      · exfalso
+        exact hnu ⟨hcap, by rw [g2]; rfl, hw⟩
+
+/-- **frozen ⇒ stall.** If the last record is frozen — the `D` clause in the form "the relabelled record does not show
+the instruction unstalled" — the cycle reproduces it: the stall test succeeds. -/
+theorem frozen_fixed {p : Proc N} {prog : List (Instr N)} (hwf : wfProc p = true) {s : SimState N}
+    (h : TermInv p prog s) {lab : Util N × List (N × Nat)}
+    (hlab : labelAll p.allUnits prog s.queues s.util (fillCycle p prog s.util s.entered).1 = .ok lab)
+    (hf : FrozenRec p prog s.util s.entered (fun u x => ∀ l, (⟨x.idx, l⟩ : HI) ∈ lab.1.get u.name → l ≠ .U)) :
+    Util.beq lab.1 s.util = true := by
+  have C := cycleCtx_of_labelAll hwf h hlab
+  have hn := wfProc_nodup_names hwf
+  have unitOf : ∀ n x, x ∈ s.util.get n → ∃ u ∈ p.allUnits, u.name = n := by
+    intro n x hx
+    have := h.row.names n (List.ne_nil_of_mem hx)
+    obtain ⟨u, hu, e⟩ := List.mem_map.1 this
+    exact ⟨u, hu, e⟩
+  have allD : ∀ n ∈ p.outBoundary, ∀ x ∈ s.util.get n, x.st = .D := by
+    intro n hn' x hx
+    obtain ⟨u, hu, rfl⟩ := unitOf n x hx
+    cases hst : x.st with
+    | U => exact absurd hst (hf.noU u hu x hx)
+    | S => exact absurd hn' (hf.sBlocked u hu x hx hst).1
+    | D => rfl
+  have hflush : ∀ n, (flushOutputs p.outBoundary s.util).get n = s.util.get n := by
+    intro n
+    rw [flushOutputs_get]
+    split
+    · next hin =>
+      apply List.filter_eq_self.2
+      intro x hx
+      simp [allD n hin x hx]
+    · rfl
+  have hmoves : (∀ n, (moveFlights p prog s.util).1.get n = s.util.get n) ∧ (moveFlights p prog s.util).2 = false := by
+    refine moveFlights_induction p prog (fun u mem => (∀ n, u.get n = s.util.get n) ∧ mem = false) s.util
+      ⟨hflush, rfl⟩ ?_
+    intro d hd u mem ⟨hu, hm⟩
+    have ht : unitTaken prog d u mem = [] := by
+      unfold unitTaken
+      by_cases hcs : candidates prog d u = []
+      · rw [hcs]; rfl
+      · obtain ⟨c, hc⟩ := List.exists_mem_of_ne_nil _ hcs
+        obtain ⟨hpred, x, hx, hv, _⟩ := mem_candidates.1 hc
+        rw [hu] at hx
+        obtain ⟨uu, huu, hname⟩ := unitOf c.1 x hx
+        rw [← hname] at hx hpred
+        simp only [validCand, Bool.and_eq_true, bne_iff_ne, ne_eq] at hv
+        have hS : x.st = .S := by
+          cases hst : x.st with
+          | U => exact absurd hst (hf.noU uu huu x hx)
+          | S => rfl
+          | D => exact absurd hst hv.1
+        have hfull := (hf.sBlocked uu huu x hx hS).2 d.model (mem_succsOf_iff.2 ⟨d, hd, hpred, rfl⟩) hv.2
+        have hw := h.row.width d.model (model_mem_allUnits_of_mem_dests hd)
+        apply fillTaken_of_full
+        rw [hu]; omega
+    refine ⟨fun n => ?_, ?_⟩
+    · rw [fillUnit_get_of_taken_nil prog d u mem ht]; exact hu n
+    · rw [fillUnit_snd_of_taken_nil prog d u mem ht]; exact hm
+  have hissue : fillCycle p prog s.util s.entered = ((moveFlights p prog s.util).1, s.entered) := by
+    show issueLoop (sortedInputs p) (prog.drop s.entered) (moveFlights p prog s.util).1 (moveFlights p prog s.util).2
+      s.entered = _
+    cases hdrop : prog.drop s.entered with
+    | nil => rfl
+    | cons ins rest =>
+      obtain ⟨hins, _⟩ := drop_eq_cons hdrop
+      have hlt : s.entered < prog.length := (List.getElem?_eq_some_iff.1 hins).1
+      have hnone : tryPorts ins.cap s.entered (sortedInputs p) (moveFlights p prog s.util).1
+          (moveFlights p prog s.util).2 = none := by
+        apply tryPorts_eq_none_iff.2
+        intro q hq ⟨hcap, _, hw⟩
+        have hq' := mem_sortedInputs.1 hq
+        rcases hf.noIssue with hle | hfull
+        · omega
+        · have := hfull q hq' (by simp [supports, capIn, hins, hcap])
+          have hw' := h.row.width q (mem_allUnits_of_mem_inBoundary hq')
+          rw [hmoves.1] at hw; omega
+      simp [issueLoop, hnone]
+  have hmid : ∀ n, (fillCycle p prog s.util s.entered).1.get n = s.util.get n := by
+    intro n; rw [hissue]; exact hmoves.1 n
+  have hnew : ∀ n, lab.1.get n = s.util.get n := by
+    intro n
+    have hg := labelAll_get hlab n
+    by_cases hne : (fillCycle p prog s.util s.entered).1.get n = []
+    · rw [hg.1 hne, ← hmid n, hne]
+    · obtain ⟨unit, hlu, hmap⟩ := hg.2 hne
+      obtain ⟨hunit, hname⟩ := lookupUnit_some hlu
+      subst hname
+      rw [hmid] at hmap
+      have hid : ∀ x ∈ s.util.get unit.name,
+          (⟨x.idx, labelOf prog s.queues unit (s.util.get unit.name) x.idx⟩ : HI) = x := by
+        intro x hx
+        have hwl := wasLoaded_of_mem (h.nd.nodup_unit unit.name) hx
+        cases hst : x.st with
+        | U => exact absurd hst (hf.noU unit hunit x hx)
+        | S =>
+          have : labelOf prog s.queues unit (s.util.get unit.name) x.idx = .S := by
+            apply (labelOf_eq_S_iff _ _ _ _ _).2
+            rw [hwl, hst]; rfl
+          rw [this, ← hst]
+        | D =>
+          have hmem : (⟨x.idx, labelOf prog s.queues unit (s.util.get unit.name) x.idx⟩ : HI) ∈ lab.1.get unit.name := by
+            rw [hmap]; exact List.mem_map.2 ⟨x, hx, rfl⟩
+          have hnU := hf.dBlocked unit hunit x hx hst _ hmem
+          have hnS : labelOf prog s.queues unit (s.util.get unit.name) x.idx ≠ .S := by
+            intro hS
+            have := (labelOf_eq_S_iff _ _ _ _ _).1 hS
+            rw [hwl, hst] at this
+            cases this
+          have : labelOf prog s.queues unit (s.util.get unit.name) x.idx = .D := by
+            cases hl : labelOf prog s.queues unit (s.util.get unit.name) x.idx with
+            | U => exact absurd hl hnU
+            | S => exact absurd hl hnS
+            | D => rfl
+          rw [this, ← hst]
+      rw [hmap]
+      exact (List.map_congr_left hid).trans (List.map_id _)
+  exact (Util_beq_iff_multiset C.rowNew.keys_nodup C.rowOld.keys_nodup).2 (fun n => by rw [hnew n])
+
+end frozen
+
 end Term
 end ProcSim
